@@ -489,6 +489,9 @@ func register[T any](s spec[T]) {
 					if repr {
 						r.Line(bl, common.B(balancedToks(p.toks)))
 						c.skelLine(s.name+".TokenReader", p.toks)
+						// the model of what the encoder prints for these raw tokens (Model/Reencode.lean)
+						// against the strict reading of what it did print
+						r.Line("wf "+common.EncToks(p.toks), common.B(wellFormed(p.out) == nil))
 					}
 					if !balancedToks(p.toks) {
 						r.Fail("well-formed", s.name+"/TokenReader/unbalanced", append(lines, r.Prop+" "+bl), "token stream is not balanced\n"+describe())
